@@ -103,6 +103,8 @@ FOREIGN = {
     "foreign": lambda: Foreign(),
     "pair_foreign_xyz": lambda: (Foreign("g"), {"output": {"filetype": "xyz", "filename": "f"}}),
     "list": lambda: [1, 2],
+    # bytes are not a string (Write selects text): with a context that names a file
+    "pair_bytes": lambda: (bytes(bytearray(b"raw")), {"output": {"filename": "raw", "filetype": "bin"}}),
     "dict": lambda: {"a": 1},
     "bool": lambda: True,
     # strings with context
@@ -166,8 +168,8 @@ def b_pool(kind, cfg):
     elif kind == "Write":
         # bare strings are selected by Write
         extra = ["str_disabled", "writable_disabled", "write_attr", "written_path", "pair_hist",
-                 "pair_filename"]
-        drop = ["float", "tuple2", "dict"]
+                 "pair_filename", "pair_bytes"]
+        drop = ["float", "tuple2", "dict", "tuple3"]
     elif kind == "RenderLaTeX":
         extra = ["str", "str_tex", "str_pdf", "str_nofiletype", "str_csv_wrong_level", "pair_hist"]
         drop = ["float", "tuple2", "list"]
